@@ -313,6 +313,7 @@ func init() {
 			complete := true
 			eval := func(c c06Case, nontrivial bool, size int) {
 				r.Evals.Add(1)
+				r.Journal(c)
 				r.Transitions.Add(1)
 				ok, sig, detail := c06Eval(c)
 				if nontrivial {
